@@ -174,7 +174,7 @@ func newRootScope(opts ScopeOptions, interval time.Duration) *scope {
 		cachedReporter:  opts.CachedReporter,
 		counters:        make(map[string]*counter),
 		countersSlice:   make([]*counter, 0, _defaultInitialSliceSize),
-		defaultBuckets:  opts.DefaultBuckets,
+		defaultBuckets:  copyBuckets(opts.DefaultBuckets),
 		done:            make(chan struct{}),
 		gauges:          make(map[string]*gauge),
 		gaugesSlice:     make([]*gauge, 0, _defaultInitialSliceSize),
